@@ -52,9 +52,12 @@ type Op struct {
 }
 
 type Case struct {
-	Backend string `json:"backend"`
-	Ops     []Op   `json:"ops"` // the last operation is the one interrupted
+	Backend string   `json:"backend"`
+	Ops     []Op     `json:"ops,omitempty"` // the last operation is the one interrupted
+	Restore *Restore `json:"restore,omitempty"`
 }
+
+func jsonMarshal(v any) ([]byte, error) { return json.Marshal(v) }
 
 var keyAlphabet = []string{"", "a", "ab", "abc", "b", "ba", "k", "x", "y"}
 var testNs = common.NewTestNamespaceFromSeed([]byte("verif nodedb"), 0)
@@ -266,7 +269,225 @@ func runChild(self, dir string, c Case, env ...string) (int, string) {
 	return -1, err.Error()
 }
 
+// ---------- recording wrapper and Coq rendering (badger cases are also evaluated by Verif.NodeDB.Crash) ----------
+
+type recDB struct {
+	api.NodeDB
+	puts, removed []hash.Hash
+}
+
+type recBatch struct {
+	api.Batch
+	db *recDB
+}
+
+func (d *recDB) NewBatch(oldRoot node.Root, version uint64, chunk bool) (api.Batch, error) {
+	b, err := d.NodeDB.NewBatch(oldRoot, version, chunk)
+	if err != nil {
+		return nil, err
+	}
+	return &recBatch{Batch: b, db: d}, nil
+}
+
+func (b *recBatch) PutNode(ptr *node.Pointer) error {
+	b.db.puts = append(b.db.puts, ptr.Node.GetHash())
+	return b.Batch.PutNode(ptr)
+}
+
+func (b *recBatch) RemoveNodes(nodes []*node.Pointer) error {
+	for _, p := range nodes {
+		b.db.removed = append(b.db.removed, p.GetHash())
+	}
+	return b.Batch.RemoveNodes(nodes)
+}
+
+type coqRec struct {
+	nodeID map[hash.Hash]int
+	rids   map[string]int
+	ops    []string
+	known  []string
+	ridOf  map[int]int
+}
+
+func newCoqRec() *coqRec {
+	return &coqRec{nodeID: map[hash.Hash]int{}, rids: map[string]int{}, ridOf: map[int]int{}}
+}
+
+func (cr *coqRec) nid(h hash.Hash) int {
+	id, ok := cr.nodeID[h]
+	if !ok {
+		id = len(cr.nodeID) + 1
+		cr.nodeID[h] = id
+	}
+	return id
+}
+
+func (cr *coqRec) rid(ri *rootInfo) int {
+	if len(ri.cont) == 0 {
+		return ri.typ - 1
+	}
+	k := fmt.Sprintf("%d:%s", ri.typ, ri.hash)
+	id, ok := cr.rids[k]
+	if !ok {
+		id = len(cr.rids) + 2
+		cr.rids[k] = id
+	}
+	return id
+}
+
+func nlist(xs []int) string {
+	s := make([]string, len(xs))
+	for i, x := range xs {
+		s[i] = fmt.Sprint(x)
+	}
+	return coqout.List(s)
+}
+
+func (cr *coqRec) reach(ndb api.NodeDB, ri *rootInfo) (out, inl []int) {
+	if len(ri.cont) == 0 {
+		return
+	}
+	root := ri.root(ri.ver)
+	var walk func(ptr *node.Pointer, inline bool)
+	walk = func(ptr *node.Pointer, inline bool) {
+		if ptr == nil {
+			return
+		}
+		nd := ptr.Node
+		if nd == nil {
+			var err error
+			if nd, err = ndb.GetNode(root, ptr); err != nil {
+				return
+			}
+		}
+		id := cr.nid(nd.GetHash())
+		out = append(out, id)
+		if inline {
+			inl = append(inl, id)
+		}
+		if n, ok := nd.(*node.InternalNode); ok {
+			walk(n.LeafNode, n.LeafNode != nil && n.LeafNode.Node != nil)
+			walk(n.Left, false)
+			walk(n.Right, false)
+		}
+	}
+	walk(&node.Pointer{Clean: true, Hash: root.Hash}, false)
+	return
+}
+
+// coqOp renders an operation; for commits the node-level facts come from the recorder
+// (rec may be nil for the interrupted operation when it is not a commit).
+func (cr *coqRec) coqOp(op Op, roots map[int]*rootInfo, puts, removed, reach, inl []int) string {
+	switch op.K {
+	case "commit":
+		ri := roots[op.ID]
+		old := "None"
+		if o := roots[op.Old]; o != nil {
+			old = fmt.Sprintf("(Some (%d, %d))", o.ver, cr.rid(o))
+		}
+		ws := make([]string, len(op.Writes))
+		for i, w := range op.Writes {
+			ws[i] = fmt.Sprintf("(%d, %d)", w.Key, w.Val)
+		}
+		return fmt.Sprintf("OCommit %d %d %d %s %s %s %s %s %s", op.Ver, ri.typ, cr.rid(ri), old, coqout.List(ws), nlist(puts), nlist(removed), nlist(reach), nlist(inl))
+	case "finalize":
+		var rs []int
+		for _, n := range op.Roots {
+			rs = append(rs, cr.rid(roots[n]))
+		}
+		return fmt.Sprintf("OFinalize %d %s", op.Ver, nlist(rs))
+	}
+	return fmt.Sprintf("OPrune %d", op.Ver)
+}
+
+func stCode(s string) int {
+	switch s {
+	case "absent":
+		return 0
+	case "exact":
+		return 1
+	case "node-missing":
+		return 2
+	case "root-not-found":
+		return 3
+	}
+	return 9
+}
+
+func (cr *coqRec) coqObs(o obs, roots map[int]*rootInfo, order []int) string {
+	last := "None"
+	if o.HasLast {
+		last = fmt.Sprintf("(Some %d)", o.Last)
+	}
+	var rs []string
+	seen := map[string]bool{}
+	for _, id := range order {
+		ri := roots[id]
+		if len(ri.cont) == 0 {
+			continue
+		}
+		k := fmt.Sprintf("(%d, %d)", ri.ver, cr.rid(ri))
+		if seen[k] {
+			continue
+		}
+		seen[k] = true
+		rs = append(rs, fmt.Sprintf("(%s, %d)", k, stCode(o.Roots[id])))
+	}
+	return fmt.Sprintf("((%d, %s), %s)", o.Earliest, last, coqout.List(rs))
+}
+
+func (cr *coqRec) coqKnown(roots map[int]*rootInfo, order []int) string {
+	var rs []string
+	seen := map[string]bool{}
+	for _, id := range order {
+		ri := roots[id]
+		if len(ri.cont) == 0 {
+			continue
+		}
+		k := fmt.Sprintf("(%d, %d)", ri.ver, cr.rid(ri))
+		if !seen[k] {
+			seen[k] = true
+			rs = append(rs, k)
+		}
+	}
+	return coqout.List(rs)
+}
+
+func eName(err error) string {
+	switch {
+	case err == nil:
+		return "EOk"
+	case errors.Is(err, api.ErrNotFinalized):
+		return "ENotFinalized"
+	case errors.Is(err, api.ErrAlreadyFinalized):
+		return "EAlreadyFinalized"
+	case errors.Is(err, api.ErrRootNotFound):
+		return "ERootNotFound"
+	case errors.Is(err, api.ErrNotEarliest):
+		return "ENotEarliest"
+	case errors.Is(err, api.ErrCannotPruneLatestVersion):
+		return "ECannotPruneLatest"
+	case errors.Is(err, api.ErrNodeNotFound):
+		return "ENodeNotFound"
+	}
+	return "EOther"
+}
+
+// completed durable steps at a badger crash point (see coq/NodeDB/Crash.v)
+func stepsAt(point string) int {
+	switch point[:strings.LastIndexByte(point, '#')] {
+	case "badger.commit.afterLogFlush":
+		return 0
+	case "badger.commit.afterBatchFlush", "badger.finalize.afterBatchFlush", "badger.prune.afterBatchFlush":
+		return 1
+	case "badger.finalize.afterMetaCommit":
+		return 2
+	}
+	return -1
+}
+
 type result struct {
+	coq    []string // Coq case terms (badger)
 	points []string
 	viol   []string
 	finds  []string
@@ -282,23 +503,71 @@ func runCase(self string, c Case) result {
 	// twin run without crash
 	dirT, _ := os.MkdirTemp("", "verif-crash-twin")
 	defer os.RemoveAll(dirT)
-	ndb, err := openDB(c.Backend, dirT)
+	inner, err := openDB(c.Backend, dirT)
 	if err != nil {
 		res.viol = append(res.viol, "cannot open twin database: "+err.Error())
 		return res
 	}
-	for _, op := range c.Ops[:n-1] {
+	rec := &recDB{NodeDB: inner}
+	var ndb api.NodeDB = rec
+	cr := newCoqRec()
+	var order []int
+	var coqOps []string
+	reachOf := map[int][2][]int{}
+	for i, op := range c.Ops {
+		rec.puts, rec.removed = nil, nil
+		if i == n-1 {
+			break
+		}
 		if err := doOp(ndb, op, roots); err != nil {
 			ndb.Close()
 			res.notes["history-prefix-rejected"]++
 			return res
 		}
+		var puts, removed, reach, inl []int
+		if op.K == "commit" {
+			order = append(order, op.ID)
+			for _, h := range rec.puts {
+				puts = append(puts, cr.nid(h))
+			}
+			for _, h := range rec.removed {
+				removed = append(removed, cr.nid(h))
+			}
+			rid := cr.rid(roots[op.ID])
+			if _, ok := reachOf[rid]; !ok {
+				a, b := cr.reach(inner, roots[op.ID])
+				reachOf[rid] = [2][]int{a, b}
+			}
+			reach, inl = reachOf[rid][0], reachOf[rid][1]
+		}
+		coqOps = append(coqOps, cr.coqOp(op, roots, puts, removed, reach, inl))
 	}
 	before := observe(ndb, roots)
-	if err := doOp(ndb, c.Ops[n-1], roots); err != nil {
+	lastOp := c.Ops[n-1]
+	if err := doOp(ndb, lastOp, roots); err != nil {
 		ndb.Close()
 		res.notes["last-op-rejected-in-twin"]++
 		return res
+	}
+	var coqLast string
+	{
+		var puts, removed, reach, inl []int
+		if lastOp.K == "commit" {
+			order = append(order, lastOp.ID)
+			for _, h := range rec.puts {
+				puts = append(puts, cr.nid(h))
+			}
+			for _, h := range rec.removed {
+				removed = append(removed, cr.nid(h))
+			}
+			rid := cr.rid(roots[lastOp.ID])
+			if _, ok := reachOf[rid]; !ok {
+				a, b := cr.reach(inner, roots[lastOp.ID])
+				reachOf[rid] = [2][]int{a, b}
+			}
+			reach, inl = reachOf[rid][0], reachOf[rid][1]
+		}
+		coqLast = cr.coqOp(lastOp, roots, puts, removed, reach, inl)
 	}
 	after := observe(ndb, roots)
 	ndb.Close()
@@ -364,6 +633,11 @@ func runCase(self string, c Case) result {
 			}
 			// (c) retry
 			err = doOp(ndb, c.Ops[n-1], roots)
+			if k := stepsAt(p); c.Backend == "badger" && k >= 0 {
+				retryObs := observe(ndb, roots)
+				res.coq = append(res.coq, fmt.Sprintf("((%s, %s, %d%%nat, %s), (%s, %s, %s))", coqout.List(coqOps), "("+coqLast+")", k,
+					cr.coqKnown(roots, order), cr.coqObs(crash, roots, order), eName(err), cr.coqObs(retryObs, roots, order)))
+			}
 			already := err != nil && (errors.Is(err, api.ErrAlreadyFinalized) || errors.Is(err, api.ErrNotEarliest))
 			if err != nil && c.Backend == "badger" && c.Ops[n-1].K == "prune" && strings.HasPrefix(p, "badger.prune.afterBatchFlush#") &&
 				errors.Is(err, api.ErrRootNotFound) && metaBefore {
@@ -474,10 +748,12 @@ func main() {
 	out := flag.String("out", "", "output directory")
 	replay := flag.String("replay", "", "replay a case description (JSON file)")
 	isChild := flag.Bool("child", false, "internal: replay a history and die at VERIF_CRASH_AT")
+	isRChild := flag.Bool("rchild", false, "internal: replay a checkpoint restore and die at VERIF_CRASH_AT")
+	cpDirFlag := flag.String("cpdir", "", "internal: checkpoint directory of the restore child")
 	dir := flag.String("dir", "", "internal: database directory of the child")
 	caseFile := flag.String("case", "", "internal: case file of the child")
 	flag.Parse()
-	if *isChild {
+	if *isChild || *isRChild {
 		b, err := os.ReadFile(*caseFile)
 		if err != nil {
 			os.Exit(5)
@@ -485,6 +761,9 @@ func main() {
 		var c Case
 		if json.Unmarshal(b, &c) != nil {
 			os.Exit(5)
+		}
+		if *isRChild {
+			os.Exit(restoreChild(*dir, *cpDirFlag, c))
 		}
 		os.Exit(child(*dir, c))
 	}
@@ -518,16 +797,38 @@ func main() {
 				cases = append(cases, genCase(r.Fork(), be, i%3))
 			}
 		}
+		kinds := []string{"start", "chunk", "abort", "finalize", "chunk"}
+		for i := 0; i < (*n+1)/2; i++ {
+			for _, be := range []string{"badger", "pathbadger"} {
+				cases = append(cases, Case{Backend: be, Restore: &Restore{NKeys: r.Range(8, 40), Pre: r.Chance(50), Last: kinds[i%len(kinds)], J: r.Range(0, 3)}})
+			}
+		}
 	}
 	if !verifhook.Enabled {
 		sum.Count("hook", "verif tag missing")
 	}
 	total := 0
+	wb := coqout.NewWriter(*out, "From Verif Require Import Lib.Base NodeDB.Spec NodeDB.Badger NodeDB.Crash.\n", "crash_case", "crash_eqb", 10)
 	for _, c := range cases {
-		res := runCase(self, c)
+		var res result
+		if c.Restore != nil {
+			res = runRestoreCase(self, c)
+			sum.Count("last_op", c.Backend+":restore-"+c.Restore.Last)
+			sum.Count("crash_points_per_op", fmt.Sprintf("%s:restore-%s:%d", c.Backend, c.Restore.Last, len(res.points)))
+			c.Ops = []Op{{K: "restore-" + c.Restore.Last}}
+		} else {
+			res = runCase(self, c)
+		}
+		for _, t := range res.coq {
+			wb.Add(t, map[string]any{"case": c})
+		}
 		last := c.Ops[len(c.Ops)-1].K
-		sum.Count("last_op", c.Backend+":"+last)
-		sum.Count("crash_points_per_op", fmt.Sprintf("%s:%s:%d", c.Backend, last, len(res.points)))
+		if c.Restore == nil {
+			sum.Count("last_op", c.Backend+":"+last)
+			sum.Count("crash_points_per_op", fmt.Sprintf("%s:%s:%d", c.Backend, last, len(res.points)))
+		} else {
+			c.Ops = nil
+		}
 		for _, p := range res.points {
 			sum.Count("crash_point", p)
 			sum.Evaluations++
@@ -537,7 +838,7 @@ func main() {
 			for j := 0; j < v; j++ {
 				sum.Count("outcome", k)
 			}
-			if k == "crash-state:not-at-all" || k == "retry:ok" {
+			if k == "crash-state:not-at-all" || k == "retry:ok" || k == "restore:retry-ok" {
 				sum.DistinctNontrivial += v
 			}
 		}
@@ -560,5 +861,6 @@ func main() {
 		sum.Count("hook", "no crash point passed: call sites absent (hooks/c07-crashpoints.diff not applied); crash enumeration skipped")
 		sum.Extra["degraded"] = "crash-point call sites absent in the repository under test"
 	}
+	wb.Close()
 	sum.Write(*out)
 }
